@@ -240,12 +240,14 @@ pub fn c12(opts: &Opts, out: &mut Out) {
     let mut rng = chacha(opts.seed, 12);
     let mut classes = HashSet::new();
     let bits_list: &[usize] = if opts.thorough { &[1, 2, 4, 8, 16, 64] } else { &[1, 2, 4, 8, 64] };
-    for &n in bits_list {
-        for m in [1usize, 2, 4, 8] {
-            if n * m > 128 {
+    let tall: &[(usize, usize)] = if opts.thorough { &[(1, 64), (2, 64), (1, 256)] } else { &[(1, 64)] };
+    let grid: Vec<(usize, usize)> = bits_list.iter().flat_map(|n| [1usize, 2, 4, 8].iter().map(move |m| (*n, *m))).chain(tall.iter().cloned()).collect();
+    {
+        for (n, m) in grid {
+            if n * m > 128 && m <= 32 {
                 continue;
             }
-            let caps: Vec<usize> = [m, 2 * m, 4 * m, 32].iter().cloned().filter(|c| *c <= 32 && *c >= m).collect::<std::collections::BTreeSet<_>>().into_iter().collect();
+            let caps: Vec<usize> = if m > 32 { vec![m, 2 * m, 1024] } else { [m, 2 * m, 4 * m, 32].iter().cloned().filter(|c| *c <= 32 && *c >= m).collect::<std::collections::BTreeSet<_>>().into_iter().collect() };
             for &cp in &caps {
                 let t = 1 + (n + m + cp) % 4;
                 let inst = fmrun::random_inst(n, m, cp, t, n + m, false, &mut rng);
